@@ -197,18 +197,26 @@ fn doc_stream(n: u64) -> Option<String> {
   let rt = tokio::runtime::Builder::new_current_thread().build().unwrap();
   let mut r = Rng::new(n ^ 0xD0C);
   let storage = Storage::new(JwkMemStore::new(), KeyIdMemstore::new());
-  let mk = |id: &str| CoreDocument::builder(Object::new()).id(CoreDID::parse(id).unwrap()).build().unwrap();
-  let mut doc = mk("did:example:holder");
-  let mut other = mk("did:example:other");
+  // every second stream goes through IotaDocument (its signing / verification calls are meant to be the same operations)
+  let iota = n % 2 == 1;
+  let mk = |id: &str, tag: &str| -> SD {
+    if iota {
+      SD::Iota(identity_iota_core::IotaDocument::new_with_id(identity_iota_core::IotaDID::parse(format!("did:iota:0x{}", tag.repeat(32))).unwrap()))
+    } else {
+      SD::Core(CoreDocument::builder(Object::new()).id(CoreDID::parse(id).unwrap()).build().unwrap())
+    }
+  };
+  let mut doc = mk("did:example:holder", "ab");
+  let mut other = mk("did:example:other", "cd");
   let scopes = [
     ("a", MethodScope::VerificationMethod),
     ("b", MethodScope::VerificationRelationship(MethodRelationship::Authentication)),
     ("c", MethodScope::VerificationRelationship(MethodRelationship::AssertionMethod)),
   ];
   for (f, sc) in scopes {
-    rt.block_on(doc.generate_method(&storage, JwkMemStore::ED25519_KEY_TYPE, JwsAlgorithm::EdDSA, Some(f), sc)).ok()?;
+    doc.generate(&rt, &storage, f, sc)?;
   }
-  rt.block_on(other.generate_method(&storage, JwkMemStore::ED25519_KEY_TYPE, JwsAlgorithm::EdDSA, Some("a"), MethodScope::VerificationMethod)).ok()?;
+  other.generate(&rt, &storage, "a", MethodScope::VerificationMethod)?;
   let verifier = EdDSAJwsVerifier::default();
   // option bits from n
   let mut opts = JwsSignatureOptions::new();
@@ -239,7 +247,7 @@ fn doc_stream(n: u64) -> Option<String> {
     _ => "é€ text ~".as_bytes().to_vec(),
   };
   let unencoded = b64 == Some(false);
-  let jws = match rt.block_on(doc.create_jws(&storage, frag, &payload, &opts)) {
+  let jws = match doc.create(&rt, &storage, frag, &payload, &opts) {
     Ok(j) => j,
     Err(_) => {
       // the only legitimate refusals: an unencoded attached payload outside the compact charset
@@ -251,7 +259,7 @@ fn doc_stream(n: u64) -> Option<String> {
     }
   };
   let det_bytes: Option<Vec<u8>> = if detached { Some(if unencoded { payload.clone() } else { b64url(&payload).into_bytes() }) } else { None };
-  let method_id = doc.id().to_url().join(format!("#{}", frag)).unwrap();
+  let method_id = doc.core().id().to_url().join(format!("#{}", frag)).unwrap();
   let base = || {
     let mut v = JwsVerificationOptions::new();
     if let Some(nc) = nonce {
@@ -262,7 +270,7 @@ fn doc_stream(n: u64) -> Option<String> {
     }
     v
   };
-  let check = |d: &CoreDocument, v: &JwsVerificationOptions| d.verify_jws(jws.as_str(), det_bytes.as_deref(), &verifier, v);
+  let check = |d: &SD, v: &JwsVerificationOptions| d.verify(&jws, det_bytes.as_deref(), &verifier, v);
   // 1. verifies against the document and key it was produced for, to what was signed
   match check(&doc, &base()) {
     Ok(dec) => {
@@ -297,7 +305,7 @@ fn doc_stream(n: u64) -> Option<String> {
         (_, Some(false)) => return Some("doc-verify-header-differs:b64=false although not requested".into()),
         _ => {}
       }
-      let own_key = doc.resolve_method(&method_id, None).and_then(|m| m.data().public_key_jwk()).map(|j| j.thumbprint_sha256_b64());
+      let own_key = doc.core().resolve_method(&method_id, None).and_then(|m| m.data().public_key_jwk()).map(|j| j.thumbprint_sha256_b64());
       match (bit(0), h.jwk()) {
         (true, Some(j)) => {
           if !j.is_public() || Some(j.thumbprint_sha256_b64()) != own_key {
@@ -339,7 +347,7 @@ fn doc_stream(n: u64) -> Option<String> {
   }
   // 4. another method's key rejects
   let other_frag = scopes[((bits >> 10) as usize + 1) % 3].0;
-  let other_id = doc.id().to_url().join(format!("#{}", other_frag)).unwrap();
+  let other_id = doc.core().id().to_url().join(format!("#{}", other_frag)).unwrap();
   let mut v = JwsVerificationOptions::new().method_id(other_id);
   if let Some(nc) = nonce {
     v = v.nonce(nc);
@@ -352,6 +360,41 @@ fn doc_stream(n: u64) -> Option<String> {
     return Some("other-document-accepted:".into());
   }
   None
+}
+
+/// the document the storage-backed signing stream runs against
+enum SD {
+  Core(identity_document::document::CoreDocument),
+  Iota(identity_iota_core::IotaDocument),
+}
+impl SD {
+  fn core(&self) -> &identity_document::document::CoreDocument {
+    match self {
+      SD::Core(d) => d,
+      SD::Iota(d) => d.core_document(),
+    }
+  }
+  fn generate(&mut self, rt: &tokio::runtime::Runtime, st: &identity_storage::Storage<identity_storage::JwkMemStore, identity_storage::KeyIdMemstore>, f: &str, sc: identity_verification::MethodScope) -> Option<()> {
+    use identity_storage::JwkDocumentExt;
+    let (kt, alg) = (identity_storage::JwkMemStore::ED25519_KEY_TYPE, identity_jose::jws::JwsAlgorithm::EdDSA);
+    match self {
+      SD::Core(d) => rt.block_on(d.generate_method(st, kt, alg, Some(f), sc)).ok().map(|_| ()),
+      SD::Iota(d) => rt.block_on(d.generate_method(st, kt, alg, Some(f), sc)).ok().map(|_| ()),
+    }
+  }
+  fn create(&self, rt: &tokio::runtime::Runtime, st: &identity_storage::Storage<identity_storage::JwkMemStore, identity_storage::KeyIdMemstore>, f: &str, payload: &[u8], o: &identity_storage::JwsSignatureOptions) -> Result<identity_credential::credential::Jws, ()> {
+    use identity_storage::JwkDocumentExt;
+    match self {
+      SD::Core(d) => rt.block_on(d.create_jws(st, f, payload, o)).map_err(|_| ()),
+      SD::Iota(d) => rt.block_on(d.create_jws(st, f, payload, o)).map_err(|_| ()),
+    }
+  }
+  fn verify<'a>(&self, jws: &'a identity_credential::credential::Jws, det: Option<&'a [u8]>, v: &identity_eddsa_verifier::EdDSAJwsVerifier, o: &identity_document::verifiable::JwsVerificationOptions) -> Result<identity_verification::jws::DecodedJws<'a>, String> {
+    match self {
+      SD::Core(d) => d.verify_jws(jws.as_str(), det, v, o).map_err(|e| format!("{:?}", e)),
+      SD::Iota(d) => d.verify_jws(jws, det, v, o).map_err(|e| format!("{:?}", e)),
+    }
+  }
 }
 
 fn stab(specs: &[&str]) -> String {
